@@ -75,7 +75,7 @@ func main() {
 			return
 		}
 		ctx := core.NewCtx(*prop, ck.Engine, *tier, b)
-		core.Watchdog(30*time.Second, *out+".hang")
+		core.Watchdog(90*time.Second, *out+".hang")
 		ck.Run(ctx, *tier)
 		if os.Getenv("VERIF_SHARD") != "" {
 			ctx.ExportStates(*out + ".states")
@@ -103,7 +103,7 @@ func main() {
 			os.Exit(2)
 		}
 		ctx := core.NewCtx(*prop, ck.Engine, "replay", time.Minute)
-		core.Watchdog(30*time.Second, *file+".hang")
+		core.Watchdog(90*time.Second, *file+".hang")
 		ck.Replay(ctx, v.Case)
 		if *out != "" {
 			ctx.Finish(*out)
